@@ -413,6 +413,7 @@ _RELEVANT = {
     "R-subscribers": _SHAPE + ["R-subscribers"],
 }
 _FAMILY = set(_RELEVANT)
+SHAPE = list(_SHAPE)
 
 
 def _base(tag):
@@ -420,13 +421,17 @@ def _base(tag):
     return tag.split(":")[-1]
 
 
-def relevance(obligation_name):
+def relevance(obligation_name, contract=None):
     """-> predicate on hypothesis tags, or None (use everything)"""
     import re
     goal = re.sub(r"@\d+$", "", obligation_name).split(":")[-1]
-    if goal not in _RELEVANT:
+    extra = getattr(contract, "relevant", None) or {}
+    if goal in extra:
+        wanted = set(extra[goal])
+    elif goal in _RELEVANT:
+        wanted = set(_RELEVANT[goal])
+    else:
         return None
-    wanted = set(_RELEVANT[goal])
 
     def keep(tag):
         b = _base(tag)
